@@ -235,6 +235,20 @@ class ScriptedPeer(PeerBase):
             if self.framing == "tcp" or s.type & 0xF == 1:      # SOCK_STREAM: real EOF
                 return self.close_conn(s, d, n)
             return self.send_error(s, errno.ECONNREFUSED, d, n)
+        if name == "nowexc":            # valid answer now, then a (late / duplicate) exception frame for the same request
+            keep.append(v)
+            self.send(s, v, 0, n, 1)
+            e = self.exception(req, args[0])
+            if e is not None:
+                self.send(s, e, args[1], n, 2)
+            return
+        if name == "badsumlate":        # a corrupted answer after a delay (default half a timeout)
+            b = bytearray(v)
+            if self.framing == "tcp":
+                b[8] ^= 0x02
+            else:
+                b[-1] ^= 0x55
+            return self.send(s, bytes(b), (args[0] if args else 0.5 * T), n)
         if name == "nowerr":            # valid answer now, then an OS error on the idle socket
             keep.append(v)
             self.send(s, v, 0, n, 1)
